@@ -152,7 +152,9 @@ func bridgeIOPipes(c *net.TCPConn, h *closeHook) *pipePair {
 	wg.Add(2)
 	go func() {
 		defer wg.Done()
-		io.Copy(c, r1)
+		if _, err := io.Copy(c, r1); err != nil {
+			r1.CloseWithError(err) // the target is gone: the proxy's next write fails, it does not block for good
+		}
 		c.CloseWrite()
 	}()
 	go func() {
